@@ -331,6 +331,7 @@ structure Pres (P : Params) (act : Bool) (I : S → Prop) : Prop where
   calls      : ∀ (s : S) l, I s → I { s with calls := l }
   strict     : ∀ (s : S) c b, (b = true → act = true) → I s → I { s with strict := updF s.strict c b }
   clear      : ∀ (s : S) scope, I s → I (rtClear P s scope)
+  cache      : ∀ (s : S) c (p : Nat → List (List Val)), I s → I { s with cached := c, pending := p }
 
 /-- operations that are assignment paths or edits, i.e. everything except switching strict
 hints on -/
@@ -582,6 +583,124 @@ theorem roundTrip_pres (fuel : Nat) (s : S) (scope : List Nat) (cs : List Comp) 
   · rename_i s' heq; rw [heq] at h1; exact h1
   · exact h
 
+theorem pres_aux (s : S) (f g : Nat → Bool) (l : List (Nat × List Val)) (c : Nat → Option (List Val))
+    (p : Nat → List (List Val))
+    (h : I s) : I { s with running := f, failed := g, calls := l, cached := c, pending := p } := by
+  have h1 := hp.flags s f g h
+  have h2 := hp.calls _ l h1
+  exact hp.cache _ c p h2
+
+theorem admission_pres (fuel : Nat) (s : S) (n : Nat) (kw : List (Nat × Arg)) (h : I s) :
+    I (admission P fuel s n kw).1 := by
+  unfold admission
+  have h1 := setInputs_pres hp fuel s kw h
+  split
+  · rename_i s1 e heq; rw [heq] at h1; exact h1
+  · rename_i s1 heq
+    rw [heq] at h1
+    have h2 := fetchAll_pres hp fuel s1 (s1.ins n) h1
+    split
+    · rename_i s2 e heq2; rw [heq2] at h2; exact h2
+    · rename_i s2 heq2
+      rw [heq2] at h2
+      simp only
+      split
+      · split
+        · exact h2
+        · exact pres_aux hp s2 _ _ _ _ _ h2
+      · exact h2
+
+theorem finishRun_pres (fuel : Nat) (s : S) (n : Nat) (args : List Val) (h : I s) :
+    I (finishRun P fuel s n args).1 := by
+  unfold finishRun
+  simp only
+  have h3 : I { s with calls := s.calls ++ [(n, args)], running := updF s.running n false } :=
+    pres_aux hp s _ _ _ _ _ h
+  have h4 := setOutputs_pres hp fuel _ (s.outs n) (P.fn n args) h3
+  split
+  · rename_i s4 heq4; rw [heq4] at h4; exact pres_aux hp s4 _ _ _ _ _ h4
+  · rename_i s4 e heq4
+    rw [heq4] at h4
+    exact pres_aux hp s4 _ _ _ _ _ h4
+
+theorem runKids_pres (run : S → Nat → S × Out) (hrun : ∀ t k, I t → I (run t k).1) (deps : Nat → List Nat)
+    (s : S) (ks done : List Nat) (bad : Bool) (h : I s) : I (runKids run deps s ks done bad).1 := by
+  induction ks generalizing s done bad with
+  | nil => exact h
+  | cons k ks ih =>
+    unfold runKids
+    split
+    · have h1 := hrun s k h
+      cases hr : run s k with
+      | mk s' o =>
+        rw [hr] at h1
+        cases o with
+        | invoked e => cases e <;> exact ih s' _ _ h1
+        | _ => exact ih s' _ _ h1
+    · exact ih s _ _ h
+
+theorem runFirst_pres (run : S → Nat → S × Out) (hrun : ∀ t k, I t → I (run t k).1)
+    (s : S) (ks : List Nat) (h : I s) : I (runFirst run s ks).1 := by
+  induction ks generalizing s with
+  | nil => exact h
+  | cons k ks ih =>
+    unfold runFirst
+    have h1 := hrun s k h
+    cases hr : run s k with
+    | mk s' o =>
+      rw [hr] at h1
+      cases o with
+      | err e => exact h1
+      | invoked e =>
+        cases e with
+        | none => exact ih s' h1
+        | some e => exact h1
+      | ok => exact ih s' h1
+      | hit => exact ih s' h1
+      | submitted => exact ih s' h1
+
+theorem runAny_pres (fuel d : Nat) (s : S) (n : Nat) (kw : List (Nat × Arg)) (h : I s) :
+    I (runAny P fuel d s n kw).1 := by
+  induction d generalizing s n kw with
+  | zero => exact h
+  | succ d ih =>
+    unfold runAny
+    have h1 := admission_pres hp fuel s n kw h
+    split
+    · rename_i s' e heq; rw [heq] at h1; exact h1
+    · rename_i s' heq; rw [heq] at h1; exact h1
+    · rename_i s' args heq
+      rw [heq] at h1
+      split
+      · exact finishRun_pres hp fuel s' n args h1
+      · split
+        · have h2 := runFirst_pres hp (fun t k => runAny P fuel d t k []) (fun t k ht => ih t k [] ht) s'
+            ((s'.kids n).filter fun k => s'.running k) h1
+          split
+          · rename_i s'' heq2; rw [heq2] at h2; exact pres_aux hp s'' _ _ _ _ _ h2
+          · rename_i s'' e heq2; rw [heq2] at h2; exact pres_aux hp s'' _ _ _ _ _ h2
+        · have h2 := runKids_pres hp (fun t k => runAny P fuel d t k []) (fun t k ht => ih t k [] ht) s'.deps s'
+            (s'.kids n) [] false h1
+          split
+          · rename_i s'' heq2; rw [heq2] at h2; exact pres_aux hp s'' _ _ _ _ _ h2
+          · rename_i s'' heq2; rw [heq2] at h2
+            exact pres_aux hp s'' _ _ _ _ _ h2
+
+theorem submitRun_pres (fuel : Nat) (s : S) (n : Nat) (kw : List (Nat × Arg)) (h : I s) :
+    I (submitRun P fuel s n kw).1 := by
+  unfold submitRun
+  have h1 := admission_pres hp fuel s n kw h
+  split
+  · rename_i s' e heq; rw [heq] at h1; exact h1
+  · rename_i s' heq; rw [heq] at h1; exact h1
+  · rename_i s' args heq; rw [heq] at h1; exact pres_aux hp s' _ _ _ _ _ h1
+
+theorem completeRun_pres (fuel : Nat) (s : S) (n : Nat) (h : I s) : I (completeRun P fuel s n).1 := by
+  unfold completeRun
+  split
+  · exact finishRun_pres hp fuel _ n _ (pres_aux hp s _ _ _ _ _ h)
+  · exact h
+
 theorem step_pres (fuel : Nat) (s : S) (op : Op) (hop : act = true ∨ op.noActivate) (h : I s) :
     I (step P fuel s op).1 := by
   cases op with
@@ -594,7 +713,9 @@ theorem step_pres (fuel : Nat) (s : S) (op : Op) (hop : act = true ∨ op.noActi
   | connect a b => simp only [step, wrap_fst]; exact hp.connect _ _ _ h
   | disconnect a b => exact hp.disconnect _ _ _ h
   | copyValues fh pin pout => simp only [step, wrap_fst]; exact copyValues_pres hp fuel fh s pin pout h
-  | run n kw => exact runNode_pres hp fuel s n kw h
+  | run n kw => exact runAny_pres hp fuel fuel s n kw h
+  | submit n kw => exact submitRun_pres hp fuel s n kw h
+  | complete n => exact completeRun_pres hp fuel s n h
   | setStrict c b =>
     refine hp.strict s c b ?_ h
     intro hb
@@ -646,6 +767,7 @@ theorem good_pres (P : Params) (hcopy : CopyOk P) : Pres P false (Good P) where
   recv s a r _ h := h
   flags s f g h := h
   calls s l h := h
+  cache s c p h := h
   strict s c b hb h := by
     intro x hs hh
     by_cases hx : x = c
@@ -722,6 +844,7 @@ theorem wf_pres (P : Params) : Pres P true (WF P) where
   flags s f g h := h.of_same rfl rfl rfl rfl rfl
   calls s l h := h.of_same rfl rfl rfl rfl rfl
   strict s c b _ h := h.of_same rfl rfl rfl rfl rfl
+  cache s c p h := h.of_same rfl rfl rfl rfl rfl
 
 theorem init_good (P : Params) (kind owner hinted strict ins outs) :
     Good P (init kind owner hinted strict ins outs) := by
@@ -1757,5 +1880,366 @@ theorem restoreAll_order (P : Params) (fuel : Nat) (pre : S) (hrev : P.cfg.revIt
           have hx2 : x ∉ allIns cs := fun hc => hxn (List.mem_append_right _ hc)
           rw [ih'.2 x hx hx2, hst1, hoa x hx hx1]
     · simp at h
+
+
+/-! ## the general run (cache, composites, executors) -/
+
+/-- the static attributes a run reads -/
+structure Stat (s s' : S) : Prop where
+  hinted   : s'.hinted = s.hinted
+  strict   : s'.strict = s.strict
+  ins      : s'.ins = s.ins
+  useCache : s'.useCache = s.useCache
+  kids     : s'.kids = s.kids
+  deps     : s'.deps = s.deps
+
+theorem Stat.refl (s : S) : Stat s s := ⟨rfl, rfl, rfl, rfl, rfl, rfl⟩
+theorem Stat.trans {a b c : S} (h1 : Stat a b) (h2 : Stat b c) : Stat a c :=
+  ⟨h2.hinted.trans h1.hinted, h2.strict.trans h1.strict, h2.ins.trans h1.ins, h2.useCache.trans h1.useCache,
+   h2.kids.trans h1.kids, h2.deps.trans h1.deps⟩
+
+theorem connectS_stat (P : Params) (s : S) (a b : Nat) :
+    Stat s (connectS P s a b).1 ∧ (connectS P s a b).1.calls = s.calls := by
+  rcases connectS_cases P s a b with heq | ⟨_, _, _, heq⟩ <;> rw [heq] <;> exact ⟨⟨rfl, rfl, rfl, rfl, rfl, rfl⟩, rfl⟩
+
+theorem setInputs_stat (P : Params) (fuel : Nat) (s : S) (kw : List (Nat × Arg)) :
+    Stat s (setInputs P fuel s kw).1 ∧ (setInputs P fuel s kw).1.calls = s.calls := by
+  induction kw generalizing s with
+  | nil => exact ⟨.refl s, rfl⟩
+  | cons p kw ih =>
+    obtain ⟨c, a⟩ := p
+    unfold setInputs
+    have h1 : Stat s (assign P fuel s c a).1 ∧ (assign P fuel s c a).1.calls = s.calls := by
+      cases a with
+      | v x => exact ⟨⟨rfl, rfl, rfl, rfl, rfl, rfl⟩, rfl⟩
+      | ch o => exact connectS_stat P s c o
+    split
+    · rename_i s' heq
+      rw [heq] at h1
+      exact ⟨h1.1.trans (ih s').1, (ih s').2.trans h1.2⟩
+    · rename_i s' e heq; rw [heq] at h1; exact h1
+
+theorem fetchAll_stat (P : Params) (fuel : Nat) (s : S) (is : List Nat) :
+    Stat s (fetchAll P fuel s is).1 ∧ (fetchAll P fuel s is).1.calls = s.calls := by
+  obtain ⟨m, h⟩ := fetchAll_shape P fuel s is
+  rw [h]; exact ⟨⟨rfl, rfl, rfl, rfl, rfl, rfl⟩, rfl⟩
+
+theorem setOutputs_stat (P : Params) (fuel : Nat) (s : S) (os : List Nat) (vs : List Val) :
+    Stat s (setOutputs P fuel s os vs).1 ∧ (setOutputs P fuel s os vs).1.calls = s.calls := by
+  obtain ⟨m, h⟩ := setOutputs_shape P fuel s os vs
+  rw [h]; exact ⟨⟨rfl, rfl, rfl, rfl, rfl, rfl⟩, rfl⟩
+
+/-- the function of node `k` may be called on `args`: one value per input, each of them data that
+the input's hint accepts where the hint is strict -/
+def GoodCall (P : Params) (s : S) (e : Nat × List Val) : Prop :=
+  e.2.length = (s.ins e.1).length ∧
+  ∀ p ∈ (s.ins e.1).zip e.2, p.2 ≠ .nd ∧ (s.hinted p.1 = true → s.strict p.1 = true → P.admits p.1 p.2 = true)
+
+theorem GoodCall.of_stat {P : Params} {s s' : S} (h : Stat s s') (e : Nat × List Val) :
+    GoodCall P s' e ↔ GoodCall P s e := by
+  unfold GoodCall; rw [h.hinted, h.strict, h.ins]
+
+theorem mem_zip_map {α β} (f : α → β) (l : List α) (p : α × β) (h : p ∈ l.zip (l.map f)) :
+    p.1 ∈ l ∧ p.2 = f p.1 := by
+  induction l with
+  | nil => simp at h
+  | cons a l ih =>
+    simp only [List.map_cons, List.zip_cons_cons, List.mem_cons] at h
+    rcases h with rfl | h
+    · exact ⟨by simp, rfl⟩
+    · exact ⟨List.mem_cons_of_mem _ (ih h).1, (ih h).2⟩
+
+theorem nodeReady_goodCall (P : Params) (s : S) (n : Nat) (h : nodeReady P s n = true) :
+    GoodCall P s (n, (s.ins n).map s.val) := by
+  unfold nodeReady at h
+  simp only [Bool.and_eq_true, List.all_eq_true] at h
+  refine ⟨by simp, ?_⟩
+  intro p hp
+  obtain ⟨hi, hv⟩ := mem_zip_map s.val (s.ins n) p hp
+  have := (chanReady_iff P s p.1).mp (h.2 p.1 hi)
+  rw [hv]
+  exact ⟨this.1, this.2⟩
+
+theorem setOutputs_stat' (P : Params) (fuel : Nat) (s3 : S) (os : List Nat) (vs : List Val) (s4 : S)
+    (e : Option Err) (h : setOutputs P fuel s3 os vs = (s4, e)) : Stat s3 s4 ∧ s4.calls = s3.calls := by
+  have := setOutputs_stat P fuel s3 os vs
+  rw [h] at this; exact this
+
+/-- what the admission returns, spelled out -/
+theorem admission_spec (P : Params) (fuel : Nat) (s : S) (n : Nat) (kw : List (Nat × Arg)) :
+    (∃ s1 e, setInputs P fuel s kw = (s1, some e) ∧ admission P fuel s n kw = (s1, .refused e)) ∨
+    (∃ s1 s2 e, setInputs P fuel s kw = (s1, none) ∧ fetchAll P fuel s1 (s1.ins n) = (s2, some e) ∧
+        admission P fuel s n kw = (s2, .refused e)) ∨
+    (∃ s1 s2, setInputs P fuel s kw = (s1, none) ∧ fetchAll P fuel s1 (s1.ins n) = (s2, none) ∧
+      ((nodeReady P s2 n = false ∧ admission P fuel s n kw = (s2, .refused .readiness)) ∨
+       (nodeReady P s2 n = true ∧ s2.useCache n = true ∧ cacheHit P s2 n ((s2.ins n).map s2.val) = true ∧
+          admission P fuel s n kw = (s2, .hit)) ∨
+       (nodeReady P s2 n = true ∧ (s2.useCache n && cacheHit P s2 n ((s2.ins n).map s2.val)) = false ∧
+          admission P fuel s n kw =
+            ({ s2 with cached := updF s2.cached n none, running := updF s2.running n true },
+             .admitted ((s2.ins n).map s2.val))))) := by
+  unfold admission
+  cases h1 : setInputs P fuel s kw with
+  | mk s1 e1 =>
+    cases e1 with
+    | some e => exact Or.inl ⟨s1, e, rfl, rfl⟩
+    | none =>
+      simp only
+      cases h2 : fetchAll P fuel s1 (s1.ins n) with
+      | mk s2 e2 =>
+        cases e2 with
+        | some e => exact Or.inr (Or.inl ⟨s1, s2, e, rfl, h2, rfl⟩)
+        | none =>
+          refine Or.inr (Or.inr ⟨s1, s2, rfl, h2, ?_⟩)
+          simp only
+          cases hr : nodeReady P s2 n with
+          | false => exact Or.inl ⟨rfl, by simp⟩
+          | true =>
+            cases hc : (s2.useCache n && cacheHit P s2 n ((s2.ins n).map s2.val)) with
+            | true =>
+              simp only [Bool.and_eq_true] at hc
+              exact Or.inr (Or.inl ⟨rfl, hc.1, hc.2, by simp [hc.1]⟩)
+            | false => exact Or.inr (Or.inr ⟨rfl, rfl, by simp⟩)
+
+/-- admission leaves the static attributes and the call log alone -/
+theorem admission_stat (P : Params) (fuel : Nat) (s : S) (n : Nat) (kw : List (Nat × Arg)) :
+    Stat s (admission P fuel s n kw).1 ∧ (admission P fuel s n kw).1.calls = s.calls := by
+  have hs := setInputs_stat P fuel s kw
+  rcases admission_spec P fuel s n kw with ⟨s1, e, h1, h⟩ | ⟨s1, s2, e, h1, h2, h⟩ | ⟨s1, s2, h1, h2, h⟩
+  · rw [h]; rw [h1] at hs; exact hs
+  · rw [h]
+    rw [h1] at hs
+    have hf := fetchAll_stat P fuel s1 (s1.ins n)
+    rw [h2] at hf
+    exact ⟨hs.1.trans hf.1, hf.2.trans hs.2⟩
+  · rw [h1] at hs
+    have hf := fetchAll_stat P fuel s1 (s1.ins n)
+    rw [h2] at hf
+    have h12 : Stat s s2 ∧ s2.calls = s.calls := ⟨hs.1.trans hf.1, hf.2.trans hs.2⟩
+    rcases h with ⟨_, h⟩ | ⟨_, _, _, h⟩ | ⟨_, _, h⟩ <;> rw [h]
+    · exact h12
+    · exact h12
+    · exact ⟨⟨h12.1.hinted, h12.1.strict, h12.1.ins, h12.1.useCache, h12.1.kids, h12.1.deps⟩, h12.2⟩
+
+/-- an admitted run: the node was ready in the state the fetch left, and the arguments are the values
+its inputs held there -/
+theorem admission_admitted (P : Params) (fuel : Nat) (s : S) (n : Nat) (kw : List (Nat × Arg)) (s' : S)
+    (args : List Val) (h : admission P fuel s n kw = (s', .admitted args)) : GoodCall P s (n, args) := by
+  rcases admission_spec P fuel s n kw with ⟨s1, e, _, h'⟩ | ⟨s1, s2, e, _, _, h'⟩ | ⟨s1, s2, h1, h2, h'⟩
+  · rw [h] at h'; cases h'
+  · rw [h] at h'; cases h'
+  · have hs := setInputs_stat P fuel s kw
+    rw [h1] at hs
+    have hf := fetchAll_stat P fuel s1 (s1.ins n)
+    rw [h2] at hf
+    rcases h' with ⟨_, h'⟩ | ⟨_, _, _, h'⟩ | ⟨hr, _, h'⟩
+    · rw [h] at h'; cases h'
+    · rw [h] at h'; cases h'
+    · rw [h] at h'
+      simp only [Prod.mk.injEq, Adm.admitted.injEq] at h'
+      rw [h'.2]
+      exact (GoodCall.of_stat (hs.1.trans hf.1) _).mp (nodeReady_goodCall P s2 n hr)
+
+/-- the new entries of the call log, all of them good calls -/
+def CallsGood (P : Params) (s s' : S) : Prop :=
+  ∃ new, s'.calls = s.calls ++ new ∧ ∀ e ∈ new, GoodCall P s e
+
+theorem CallsGood.refl (P : Params) (s : S) : CallsGood P s s := ⟨[], by simp, by simp⟩
+
+theorem CallsGood.of_eq {P : Params} {s s' : S} (h : s'.calls = s.calls) : CallsGood P s s' :=
+  ⟨[], by simp [h], by simp⟩
+
+theorem CallsGood.trans {P : Params} {a b c : S} (hs : Stat a b) (h1 : CallsGood P a b) (h2 : CallsGood P b c) :
+    CallsGood P a c := by
+  obtain ⟨n1, e1, g1⟩ := h1
+  obtain ⟨n2, e2, g2⟩ := h2
+  refine ⟨n1 ++ n2, by rw [e2, e1, List.append_assoc], ?_⟩
+  intro e he
+  rcases List.mem_append.mp he with he | he
+  · exact g1 e he
+  · exact (GoodCall.of_stat hs e).mp (g2 e he)
+
+theorem finishRun_good (P : Params) (fuel : Nat) (s : S) (n : Nat) (args : List Val)
+    (hg : GoodCall P s (n, args)) :
+    Stat s (finishRun P fuel s n args).1 ∧ CallsGood P s (finishRun P fuel s n args).1 := by
+  unfold finishRun
+  simp only
+  split
+  · rename_i s4 heq
+    have h4 := setOutputs_stat' P fuel _ _ _ s4 none heq
+    refine ⟨⟨h4.1.hinted, h4.1.strict, h4.1.ins, h4.1.useCache, h4.1.kids, h4.1.deps⟩, [(n, args)], h4.2, ?_⟩
+    intro e he; simp at he; rw [he]; exact hg
+  · rename_i s4 e heq
+    have h4 := setOutputs_stat' P fuel _ _ _ s4 (some e) heq
+    refine ⟨⟨h4.1.hinted, h4.1.strict, h4.1.ins, h4.1.useCache, h4.1.kids, h4.1.deps⟩, [(n, args)], h4.2, ?_⟩
+    intro e he; simp at he; rw [he]; exact hg
+
+theorem runKids_good (P : Params) (run : S → Nat → S × Out)
+    (hrun : ∀ t k, Stat t (run t k).1 ∧ CallsGood P t (run t k).1) (deps : Nat → List Nat)
+    (s : S) (ks done : List Nat) (bad : Bool) :
+    Stat s (runKids run deps s ks done bad).1 ∧ CallsGood P s (runKids run deps s ks done bad).1 := by
+  induction ks generalizing s done bad with
+  | nil => exact ⟨.refl s, .refl P s⟩
+  | cons k ks ih =>
+    unfold runKids
+    split
+    · have h1 := hrun s k
+      cases hr : run s k with
+      | mk s' o =>
+        rw [hr] at h1
+        have step : ∀ dn bd, Stat s (runKids run deps s' ks dn bd).1 ∧
+            CallsGood P s (runKids run deps s' ks dn bd).1 :=
+          fun dn bd => ⟨h1.1.trans (ih s' dn bd).1, CallsGood.trans h1.1 h1.2 (ih s' dn bd).2⟩
+        cases o with
+        | invoked e => cases e <;> exact step _ _
+        | _ => exact step _ _
+    · exact ih s _ _
+
+theorem runFirst_good (P : Params) (run : S → Nat → S × Out)
+    (hrun : ∀ t k, Stat t (run t k).1 ∧ CallsGood P t (run t k).1) (s : S) (ks : List Nat) :
+    Stat s (runFirst run s ks).1 ∧ CallsGood P s (runFirst run s ks).1 := by
+  induction ks generalizing s with
+  | nil => exact ⟨.refl s, .refl P s⟩
+  | cons k ks ih =>
+    unfold runFirst
+    have h1 := hrun s k
+    cases hr : run s k with
+    | mk s' o =>
+      rw [hr] at h1
+      have step : Stat s (runFirst run s' ks).1 ∧ CallsGood P s (runFirst run s' ks).1 :=
+        ⟨h1.1.trans (ih s').1, CallsGood.trans h1.1 h1.2 (ih s').2⟩
+      cases o with
+      | err e => exact h1
+      | invoked e =>
+        cases e with
+        | none => exact step
+        | some e => exact h1
+      | ok => exact step
+      | hit => exact step
+      | submitted => exact step
+
+/-- **every function called during a run — of a function node, of a composite of any depth, with or
+without cache — is called on one value per input, each of them data its strict hint accepts** -/
+theorem runAny_good (P : Params) (fuel d : Nat) (s : S) (n : Nat) (kw : List (Nat × Arg)) :
+    Stat s (runAny P fuel d s n kw).1 ∧ CallsGood P s (runAny P fuel d s n kw).1 := by
+  induction d generalizing s n kw with
+  | zero => exact ⟨.refl s, .refl P s⟩
+  | succ d ih =>
+    unfold runAny
+    have ha := admission_stat P fuel s n kw
+    cases hadm : admission P fuel s n kw with
+    | mk s' a =>
+      rw [hadm] at ha
+      cases a with
+      | refused e => exact ⟨ha.1, .of_eq ha.2⟩
+      | hit => exact ⟨ha.1, .of_eq ha.2⟩
+      | admitted args =>
+        simp only
+        have hg : GoodCall P s' (n, args) :=
+          (GoodCall.of_stat ha.1 _).mpr (admission_admitted P fuel s n kw s' args hadm)
+        split
+        · have hf := finishRun_good P fuel s' n args hg
+          exact ⟨ha.1.trans hf.1, CallsGood.trans ha.1 (.of_eq ha.2) hf.2⟩
+        · split
+          · have hk := runFirst_good P (fun t k => runAny P fuel d t k []) (fun t k => ih t k []) s'
+              ((s'.kids n).filter fun k => s'.running k)
+            split
+            · rename_i s'' heq
+              rw [heq] at hk
+              exact ⟨ha.1.trans ⟨hk.1.hinted, hk.1.strict, hk.1.ins, hk.1.useCache, hk.1.kids, hk.1.deps⟩,
+                CallsGood.trans ha.1 (.of_eq ha.2) hk.2⟩
+            · rename_i s'' e heq
+              rw [heq] at hk
+              exact ⟨ha.1.trans ⟨hk.1.hinted, hk.1.strict, hk.1.ins, hk.1.useCache, hk.1.kids, hk.1.deps⟩,
+                CallsGood.trans ha.1 (.of_eq ha.2) hk.2⟩
+          · have hk := runKids_good P (fun t k => runAny P fuel d t k []) (fun t k => ih t k []) s'.deps s'
+              (s'.kids n) [] false
+            split
+            · rename_i s'' heq
+              rw [heq] at hk
+              exact ⟨ha.1.trans ⟨hk.1.hinted, hk.1.strict, hk.1.ins, hk.1.useCache, hk.1.kids, hk.1.deps⟩,
+                CallsGood.trans ha.1 (.of_eq ha.2) hk.2⟩
+            · rename_i s'' heq
+              rw [heq] at hk
+              exact ⟨ha.1.trans ⟨hk.1.hinted, hk.1.strict, hk.1.ins, hk.1.useCache, hk.1.kids, hk.1.deps⟩,
+                CallsGood.trans ha.1 (.of_eq ha.2) hk.2⟩
+
+
+theorem setOutputs_shape' (P : Params) (fuel : Nat) (s3 : S) (os : List Nat) (vs : List Val) (s4 : S)
+    (e : Option Err) (h : setOutputs P fuel s3 os vs = (s4, e)) : ∃ m, s4 = { s3 with val := m } := by
+  obtain ⟨m, hm⟩ := setOutputs_shape P fuel s3 os vs
+  rw [h] at hm; exact ⟨m, hm⟩
+
+/-- `_finish_run`: the function has been called once, on `args`; the job is no longer outstanding -/
+theorem finishRun_facts (P : Params) (fuel : Nat) (s : S) (n : Nat) (args : List Val) :
+    (finishRun P fuel s n args).2.isInvoked = true ∧
+    (finishRun P fuel s n args).1.calls = s.calls ++ [(n, args)] ∧
+    (finishRun P fuel s n args).1.pending = s.pending := by
+  unfold finishRun
+  simp only
+  split
+  · rename_i s4 heq
+    obtain ⟨m, hm⟩ := setOutputs_shape' P fuel _ _ _ s4 none heq
+    subst hm
+    exact ⟨rfl, rfl, rfl⟩
+  · rename_i s4 e heq
+    obtain ⟨m, hm⟩ := setOutputs_shape' P fuel _ _ _ s4 (some e) heq
+    subst hm
+    exact ⟨rfl, rfl, rfl⟩
+
+
+/-- re-`connect`ing pairs that are connected already changes nothing (`if other in self.connections:
+continue`): the second `__setstate__` cycle of `Node.load`, which re-adopts children that kept their
+connections -/
+theorem restoreConns_present (P : Params) (st : S) (res l : List (Nat × Nat))
+    (h : ∀ p ∈ l, res.lookup p.2 = some p.2 ∧ p.2 ∈ st.conns p.1) : restoreConns P st res l = (st, none) := by
+  induction l with
+  | nil => rfl
+  | cons p l ih =>
+    obtain ⟨i, o⟩ := p
+    unfold restoreConns
+    have hp := h (i, o) (by simp)
+    rw [hp.1]
+    simp only
+    have : connectS P st i o = (st, none) := by simp [connectS, hp.2]
+    rw [this]
+    exact ih (fun q hq => h q (List.mem_cons_of_mem _ hq))
+
+
+theorem setInputs_pending (P : Params) (fuel : Nat) (s : S) (kw : List (Nat × Arg)) :
+    (setInputs P fuel s kw).1.pending = s.pending := by
+  induction kw generalizing s with
+  | nil => rfl
+  | cons p kw ih =>
+    obtain ⟨c, a⟩ := p
+    unfold setInputs
+    have h1 : (assign P fuel s c a).1.pending = s.pending := by
+      cases a with
+      | v x => rfl
+      | ch o =>
+        simp only [assign]
+        rcases connectS_cases P s c o with heq | ⟨_, _, _, heq⟩ <;> rw [heq]
+    split
+    · rename_i s' heq; rw [heq] at h1; rw [ih s']; exact h1
+    · rename_i s' e heq; rw [heq] at h1; exact h1
+
+/-- admission does not touch the outstanding jobs -/
+theorem admission_pending (P : Params) (fuel : Nat) (s : S) (n : Nat) (kw : List (Nat × Arg)) :
+    (admission P fuel s n kw).1.pending = s.pending := by
+  have hs := setInputs_pending P fuel s kw
+  rcases admission_spec P fuel s n kw with ⟨s1, e, h1, h⟩ | ⟨s1, s2, e, h1, h2, h⟩ | ⟨s1, s2, h1, h2, h⟩
+  · rw [h]; rw [h1] at hs; exact hs
+  · rw [h]
+    rw [h1] at hs
+    obtain ⟨m, hm⟩ := fetchAll_shape P fuel s1 (s1.ins n)
+    rw [h2] at hm
+    simp only at hm
+    rw [hm]; exact hs
+  · rw [h1] at hs
+    obtain ⟨m, hm⟩ := fetchAll_shape P fuel s1 (s1.ins n)
+    rw [h2] at hm
+    simp only at hm
+    have h12 : s2.pending = s.pending := by rw [hm]; exact hs
+    rcases h with ⟨_, h⟩ | ⟨_, _, _, h⟩ | ⟨_, _, h⟩ <;> rw [h] <;> exact h12
 
 end PwVerif.Data
